@@ -81,6 +81,7 @@ def spec_series(config, tower, flux, cache, n):
 
 class SeriesLoop(loops.Constructive):
     props = PROPS
+    state_names = ("results",)
 
     def __init__(self, st):
         self.st = st
@@ -102,7 +103,7 @@ def generate_timeseries(ctx):
         st = {}
         ns = namespace(ctx)
         harness.define(ctx, ns, MOD, "_make_cache")
-        f = harness.define(ctx, ns, MOD, "run_bldfm_timeseries", loop_specs={"outer:results": SeriesLoop(st)})
+        f = harness.define(ctx, ns, MOD, "run_bldfm_timeseries", loop_specs={"outer:results|nest:0": SeriesLoop(st)})
 
         def thunk(run, use_flux=use_flux, ns=ns, f=f, st=st):
             config, n_time, n_tow, tower = make_world(run)
@@ -138,6 +139,7 @@ def generate_timeseries(ctx):
 class TowerLoop(loops.Constructive):
     """for tower in config.towers: results[tower.name] = series(tower)"""
     props = PROPS
+    state_names = ("results",)
 
     def __init__(self, st):
         self.st = st
@@ -156,7 +158,7 @@ def generate_multitower(ctx):
         return
     st = {}
     ns = namespace(ctx)
-    f = harness.define(ctx, ns, MOD, "run_bldfm_multitower", loop_specs={"outer:results": TowerLoop(st)})
+    f = harness.define(ctx, ns, MOD, "run_bldfm_multitower", loop_specs={"outer:results|nest:0": TowerLoop(st)})
     for use_flux in (True, False):
         def thunk(run, use_flux=use_flux):
             config, n_time, n_tow, tower = make_world(run)
